@@ -63,6 +63,12 @@ class EAS:
 
         u = np.random.uniform(0, 1, len(beta)) if u is None else u
 
+        # work in double whatever the caller passes: gamma x 2.9e-13 s underflows half
+        # precision and sqrt(R^2 + ...) - R cancels in single precision
+        beta = np.asarray(beta, dtype=np.float64)
+        tauBeta = np.asarray(tauBeta, dtype=np.float64)
+        tauLorentz = np.asarray(tauLorentz, dtype=np.float64)
+
         tDec = -tauLorentz * mean_Tau_life * np.log(u)  # seconds
 
         lenDec = 1e-3 * tDec * tauBeta * c.value  # km
